@@ -11,7 +11,7 @@ from vf.gen import pick_weighted
 
 ID = "C11"
 THEOREMS = ["C11_get_is_content", "C11_size_is_content", "C11_has_is_content", "C11_by_offset_is_content",
-            "C11_prefix_complete", "C11_iter_sound_partial", "C11_any_order", "C11_hint_irrelevant"]
+            "C11_prefix_complete", "C11_iter_sound", "C11_iter_complete", "C11_any_order", "C11_hint_irrelevant"]
 MODEL_FILES = ["ObjStore.v"]
 MODELLED = ("storage/filesystem/object.go: EncodedObject, EncodedObjectSize, HasEncodedObject, IterEncodedObjects (+ object_iter.go "
             "lazyPackfilesIter/packfileIter/objectsIter), HashesWithPrefix, findObjectInPackfile (MRU hint), getFromUnpacked, "
@@ -416,34 +416,75 @@ class Main(Suite):
     go_cmd = "c11"
     base_imports = "From GoGit Require Import Model.ObjStore."
     coq_imports = base_imports
-    quick_n = 200
+    quick_n = 120
     thorough_n = 3000
     coq_chunk = 100
 
     def build(self, rng):
+        """the repositories of this run (deterministic in the rng state) and their Coq form, compiled once.
+        Both are kept under .cache/C11/<key> (key = rng state, this file, the model sources, the git version):
+        a later run with the same seed reuses them; anything missing or stale is rebuilt."""
+        import json
+        import pickle
         from vf import core
-        root = tempfile.mkdtemp(prefix="verif-C11-repos-")
-        _TMP.append(root)
-        self.repos = []
-        prelude = "From Coq Require Import List NArith.\nImport ListNotations.\n" + self.base_imports + "\n"
-        for i, gitdir in enumerate(build_repos(rng, root)):
-            st = read_store(gitdir)
-            truth = git_truth(gitdir)
-            self.repos.append({"gitdir": gitdir, "store": st, "truth": truth, "name": "repo%d" % i})
-            prelude += coq_repo("repo%d" % i, st)
-        # the repositories are compiled once; every chunk of cases imports the .vo
-        mod = "C11repos_%d_%d" % (os.getpid(), len(_TMP))
-        path = os.path.join(core.scratch_dir(), mod + ".v")
-        with open(path, "w") as f:
-            f.write(prelude)
+        h = hashlib.sha256()
+        h.update(repr(rng.getstate()).encode())
+        for f in (__file__, os.path.join(core.COQ, "theories", "Model", "ObjStore.v"), os.path.join(core.COQ, "theories", "Base", "Out.v")):
+            h.update(open(f, "rb").read())
+        h.update(subprocess.run(["/usr/bin/git", "--version"], stdout=subprocess.PIPE).stdout)
+        key = h.hexdigest()[:16]
+        cdir = os.path.join(core.CACHE, "C11", key)
+        mod = "C11repos_" + key
+        scratch = core.scratch_dir()
         for ext in (".v", ".vo", ".glob", ".vok", ".vos"):
-            _FILES.append(path[:-2] + ext)
-        _FILES.append(os.path.join(os.path.dirname(path), "." + mod + ".aux"))
-        rc, out = core.coqc_file(path)
-        self.prelude_error = None if rc == 0 else out[-1500:]
-        if rc != 0:
-            core.log("C11: repository prelude failed to compile:", self.prelude_error)
+            _FILES.append(os.path.join(scratch, mod + ext))
+        _FILES.append(os.path.join(scratch, "." + mod + ".aux"))
         self.coq_imports = self.base_imports + "\nRequire Import %s." % mod
+        self.prelude_error = None
+        meta = os.path.join(cdir, "meta.pickle")
+        if os.path.exists(meta) and os.path.exists(os.path.join(cdir, mod + ".vo")):
+            try:
+                with open(meta, "rb") as f:
+                    m = pickle.load(f)
+                if all(os.path.isdir(x["gitdir"]) for x in m["repos"]):
+                    shutil.copyfile(os.path.join(cdir, mod + ".vo"), os.path.join(scratch, mod + ".vo"))
+                    # the cached .vo must still load against the model as compiled now
+                    if core.coq_eval("C11", self.coq_imports, ["ONat (List.length (s_packs (r_main repo0)))"]) != [None]:
+                        self.repos = m["repos"]
+                        rng.setstate(m["rng_after"])
+                        return
+            except Exception:
+                pass
+        with core.Lock("C11-build"):
+            tmp = tempfile.mkdtemp(prefix="build-", dir=os.path.join(core.CACHE, "C11") if os.path.isdir(os.path.join(core.CACHE, "C11")) else self._mk(os.path.join(core.CACHE, "C11")))
+            final = cdir
+            # the repositories are addressed by absolute path: build them where they will stay
+            shutil.rmtree(final, ignore_errors=True)
+            os.rename(tmp, final)
+            self.repos = []
+            prelude = "From Coq Require Import List NArith.\nImport ListNotations.\n" + self.base_imports + "\n"
+            for i, gitdir in enumerate(build_repos(rng, final)):
+                st = read_store(gitdir)
+                truth = git_truth(gitdir)
+                self.repos.append({"gitdir": gitdir, "store": st, "truth": truth, "name": "repo%d" % i})
+                prelude += coq_repo("repo%d" % i, st)
+            path = os.path.join(scratch, mod + ".v")
+            with open(path, "w") as f:
+                f.write(prelude)
+            rc, out = core.coqc_file(path)
+            if rc != 0:
+                self.prelude_error = out[-1500:]
+                core.log("C11: repository prelude failed to compile:", self.prelude_error)
+                return
+            shutil.copyfile(os.path.join(scratch, mod + ".vo"), os.path.join(final, mod + ".vo"))
+            with open(meta + ".tmp", "wb") as f:
+                pickle.dump({"repos": self.repos, "rng_after": rng.getstate()}, f)
+            os.rename(meta + ".tmp", meta)
+
+    @staticmethod
+    def _mk(d):
+        os.makedirs(d, exist_ok=True)
+        return d
 
     def gen(self, rng, n, tier):
         self.build(rng)
@@ -599,10 +640,11 @@ class Main(Suite):
     def extra(self, ctx, cases, impl, model):
         """the premise of the theorems on the repositories git built in this run (store_ok), and the model under the
         other extreme eviction policy (cache nothing) on a sample: must give the same answers"""
-        exprs = ["OBool (Spec.ObjContent.store_ok repo%d)" % i for i in range(len(self.repos))]
+        exprs = ["OBool (Spec.ObjContent.store_ok repo%d && Proofs.C11.nodup_ids (map fst (s_loose (r_main repo%d))))" % (i, i)
+                 for i in range(len(self.repos))]
         sample = [c for c in cases if "ri" in c][:40]
         exprs += [self.model_expr(c).replace("c11_run ", "c11_run_nocache ", 1) for c in sample]
-        outs = ctx.coq_eval(self.coq_imports + "\nFrom GoGit Require Spec.ObjContent.", exprs, chunk=100)
+        outs = ctx.coq_eval(self.coq_imports + "\nFrom GoGit Require Spec.ObjContent Proofs.C11.\nOpen Scope bool_scope.", exprs, chunk=100)
         ok = sum(1 for o in outs[:len(self.repos)] if o == "true")
         same = sum(1 for c, o in zip(sample, outs[len(self.repos):]) if o is not None and o == model.get(c["id"]))
         if ok != len(self.repos):
